@@ -31,6 +31,13 @@ pub enum Case {
     Header { max: String, values: Vec<Vec<u8>> },
     /// the concrete Gallina semver model against the crate
     Semver { a: String, b: String },
+    /// three ranges on one method and path: r0 and r1 share no version (both
+    /// are accepted), then r2 is offered — refused iff it shares a version
+    /// with either, however many handlers are already there
+    Triple { chain: Vec<String>, r0: RangeSpec, r1: RangeSpec, r2: RangeSpec },
+    /// the header policy on a live server: `versioned` selects an API with a
+    /// version-restricted endpoint or one whose endpoints are all unrestricted
+    LiveHeader { max: String, versioned: bool, values: Vec<Vec<u8>> },
 }
 
 async fn handler(_rqctx: RequestContext<()>) -> Result<HttpResponseOk<()>, HttpError> {
@@ -251,6 +258,123 @@ pub fn exec(case: &Case) -> Vec<Line> {
                 },
             ]
         }
+        Case::Triple { chain, r0, r1, r2 } => {
+            let vs = parse_chain(chain);
+            let prec = prec_ranks(&vs);
+            let res = catch(|| {
+                let mut api = ApiDescription::new();
+                api.register(endpoint("e0", mk_range(&vs, r0).unwrap())).unwrap();
+                let a1 = catch(|| {
+                    let mut api = ApiDescription::new();
+                    api.register(endpoint("e0", mk_range(&vs, r0).unwrap())).unwrap();
+                    api.register(endpoint("e1", mk_range(&vs, r1).unwrap())).unwrap();
+                });
+                if a1.is_err() {
+                    return None;
+                }
+                api.register(endpoint("e1", mk_range(&vs, r1).unwrap())).unwrap();
+                Some(catch(|| api.register(endpoint("e2", mk_range(&vs, r2).unwrap())).unwrap()).is_err())
+            });
+            let third = match res {
+                Ok(Some(refused)) => Some(refused),
+                _ => None,
+            };
+            vec![Line {
+                group: "triple",
+                case: serde_json::to_value(case).unwrap(),
+                obs: json!({"first_two_accepted": third.is_some(), "third_refused": third}),
+                coq: format!(
+                    "(CTriple {} {} {} {} {})",
+                    g_range(r0),
+                    g_range(r1),
+                    g_range(r2),
+                    g_list(&prec, |p| p.to_string()),
+                    g_opt(&third, |b| g_bool(*b))
+                ),
+                tags: vec![format!("triple:{}+{}+{}", r0.kind, r1.kind, r2.kind)],
+                nontrivial: true,
+            }]
+        }
+        Case::LiveHeader { max, versioned, values } => {
+            use crate::live::*;
+            use std::sync::atomic::{AtomicUsize, Ordering};
+            use std::sync::Arc;
+            let maxv = Version::parse(max).expect("max version");
+            let counter = Arc::new(AtomicUsize::new(0));
+            async fn counted(
+                rqctx: RequestContext<Arc<AtomicUsize>>,
+            ) -> Result<HttpResponseOk<()>, HttpError> {
+                rqctx.context().fetch_add(1, Ordering::SeqCst);
+                Ok(HttpResponseOk(()))
+            }
+            let mut api: ApiDescription<Arc<AtomicUsize>> = ApiDescription::new();
+            let range = if *versioned {
+                // covers every version up to max and beyond: routing always succeeds when a version is resolved
+                ApiEndpointVersions::From(Version::parse("0.0.0-0").unwrap())
+            } else {
+                ApiEndpointVersions::All
+            };
+            api.register(ApiEndpoint::new("x".to_string(), counted, Method::GET, "application/json", "/x", range)).unwrap();
+            let rt = rt();
+            let server = {
+                let _g = rt.enter();
+                start_server(
+                    api,
+                    counter.clone(),
+                    ServerOpts {
+                        version_policy: Some(dropshot::VersionPolicy::Dynamic(Box::new(
+                            ClientSpecifiesVersionInHeader::new(http::HeaderName::from_static("dropshot-test-version"), maxv.clone()),
+                        ))),
+                        ..Default::default()
+                    },
+                )
+            };
+            let mut req = b"GET /x HTTP/1.1\r\nHost: localhost\r\n".to_vec();
+            for v in values {
+                req.extend_from_slice(b"dropshot-test-version: ");
+                req.extend_from_slice(v);
+                req.extend_from_slice(b"\r\n");
+            }
+            req.extend_from_slice(b"\r\n");
+            let resp = roundtrip(server.local_addr(), &req, false);
+            let entered = counter.load(Ordering::SeqCst) > 0;
+            rt.block_on(async { server.close().await.ok() });
+            let status = match &resp {
+                Ok(r) => r.status as u64,
+                Err(_) => 0,
+            };
+            // what the code is given: the first value, OWS-trimmed by hyper
+            let first: Option<Vec<u8>> = values.first().map(|v| {
+                let mut a = v.as_slice();
+                while let [b' ' | b'\t', rest @ ..] = a {
+                    a = rest;
+                }
+                while let [rest @ .., b' ' | b'\t'] = a {
+                    a = rest;
+                }
+                a.to_vec()
+            });
+            let hdr = match &first {
+                None => "HAbsent".to_string(),
+                Some(v) => {
+                    if v.iter().all(|c| (*c >= 32 && *c < 127) || *c == b'\t') {
+                        format!("(HStr {})", g_bytes(v))
+                    } else {
+                        "HNotAscii".to_string()
+                    }
+                }
+            };
+            // bytes hyper itself refuses in a header value never reach dropshot
+            let hyper_refuses = values.iter().any(|v| v.iter().any(|c| (*c < 32 && *c != b'\t') || *c == 127));
+            vec![Line {
+                group: "live-header",
+                case: serde_json::to_value(case).unwrap(),
+                obs: json!({"status": status, "handler_entered": entered}),
+                coq: format!("(CHeaderLive {} {} {} {} {})", hdr, g_str(max), status, g_bool(entered), g_bool(hyper_refuses)),
+                tags: vec![format!("live-header:{}", if *versioned { "versioned-api" } else { "unversioned-api" })],
+                nontrivial: !values.is_empty(),
+            }]
+        }
         Case::Semver { a, b } => {
             let pa = Version::parse(a).ok();
             let pb = Version::parse(b).ok();
@@ -414,6 +538,52 @@ pub fn gen(opts: &Opts) -> Vec<Case> {
     for max in ["2.0.0", "1.2.3", "1.0.0-rc.1", "0.0.0-0"] {
         for values in header_values(&mut rng, max, if opts.thorough { 2000 } else { 150 }) {
             cases.push(Case::Header { max: max.to_string(), values });
+        }
+    }
+    // three registrations on one method and path
+    {
+        let chain = chain_for(&mut rng);
+        let valid = all_ranges(chain.len(), false);
+        let vs = parse_chain(&chain);
+        let n3 = if opts.thorough { 6000 } else { 600 };
+        let mut made = 0;
+        let mut tries = 0;
+        while made < n3 && tries < n3 * 40 {
+            tries += 1;
+            let r0 = valid[rng.below(valid.len())].clone();
+            let r1 = valid[rng.below(valid.len())].clone();
+            // the first two must be accepted: keep pairs the crate itself says are disjoint... no:
+            // decide disjointness independently, by probing every chain version plus bounds
+            // decided on chain indices, independently of the crate (every
+            // bound is a chain element, so a shared version has a witness in
+            // the chain)
+            let holds = |r: &RangeSpec, i: usize| match r.kind.as_str() {
+                "all" => true,
+                "from" => i >= r.a,
+                "until" => i < r.b,
+                _ => (r.a <= i && i < r.b) || (r.a == r.b && i == r.a),
+            };
+            let share = (0..vs.len()).any(|i| holds(&r0, i) && holds(&r1, i))
+                || matches!((r0.kind.as_str(), r1.kind.as_str()), ("all", _) | (_, "all") | ("from", "from") | ("until", "until"));
+            if share {
+                continue;
+            }
+            let r2 = valid[rng.below(valid.len())].clone();
+            cases.push(Case::Triple { chain: chain.clone(), r0, r1, r2 });
+            made += 1;
+        }
+    }
+    // the header policy through a live server, with and without a
+    // version-restricted endpoint in the API
+    for max in ["2.0.0", "1.0.0-rc.1"] {
+        for versioned in [true, false] {
+            for values in header_values(&mut rng, max, if opts.thorough { 400 } else { 40 }) {
+                // control bytes would be refused (or re-framed) by hyper itself
+                if values.iter().any(|v| v.iter().any(|c| (*c < 32 && *c != b'\t') || *c == 127)) {
+                    continue;
+                }
+                cases.push(Case::LiveHeader { max: max.to_string(), versioned, values });
+            }
         }
     }
     // the concrete semver model against the crate: strings from a grammar of
